@@ -34,7 +34,8 @@ THEOREMS = ['C11_never_false_success', 'C11_eof_after_ack_falls_back', 'C11_kill
             'C11_process_never_false_success', 'C11_failed_probe_does_not_poison',
             'C11_server_reports_requested_address', 'C11_cold_start_any_address',
             'C11_cold_start_stale_environment', 'C11_unusable_tmpdir_is_an_error',
-            'C11_oversized_result_falls_back', 'C11_result_whole_or_not_at_all']
+            'C11_oversized_result_falls_back', 'C11_result_whole_or_not_at_all',
+            'C11_fallback_is_the_original_command', 'C11_exit_keeps_the_socket', 'C11_socket_belongs_to_last_binder']
 ASSUMPTIONS = [
     'which error kind the kernel reports to the client for a lost peer (clean EOF vs ECONNRESET) is an input of the model (the `ending` of the stream), not derived: observed in the kill leg (a SIGKILLed server that had read the whole request yields EOF) — the claim is PARTIAL there',
     'bytes written by the server before it dies are delivered to the client before the end-of-stream indication (TCP ordering; Linux keeps already queued data readable after an RST)',
@@ -500,9 +501,11 @@ def monitor_kill(case, out):
     if phase != b'none':
         # the concurrent client lost the server during its compiler run, after its acknowledgement
         if not (isinstance(other, list) and len(other) == 6 and other[3] == 1 and other[2] == 0 and other[5] == b'ok'):
-            vs.append('a concurrent client whose server died during its compile did not deliver a local compile: %r' % (other,))
+            vs.append('a concurrent client whose server died during its compile did not deliver the original command\'s '
+                      'result (exit 0, same object, same diagnostics bytes as a direct run): %r' % (other,))
     if code == 0 and obj != b'ok':
-        vs.append('exit 0 with a missing or wrong object file')
+        vs.append('exit 0 with an object or diagnostics that differ from the direct run of the original command '
+                  '(forced colour, SOURCE_DATE_EPOCH in the client environment)')
     if kind == b'error' and code == 0:
         vs.append('sccache error with exit 0')
     if phase in (b'preprocess', b'compile') and not (ran == 1 and code == 0):
@@ -727,6 +730,25 @@ def monitor_bigout(case, out):
     return vs[:3]
 
 
+# ---------------------------------------------------------------- takeover leg
+
+def monitor_takeover(case, out):
+    if not isinstance(out, list) or len(out) != 5:
+        return ['the run did not complete normally: %r' % (out,)]
+    inflight, during, old_gone, reachable, nxt = out
+    what = 'Unix-socket server told to stop with a compile in flight, a new server takes the path over (%s), the old one exits' % case[0].decode()
+    vs = []
+    if inflight != b'served':
+        vs.append('%s: the in-flight compile was not delivered: %r' % (what, inflight))
+    if case[0] == b'client' and during != b'served':
+        vs.append('%s: the client that arrived during the drain was not served: %r' % (what, during))
+    if reachable != 1:
+        vs.append('%s: a server is alive but the socket file is gone' % what)
+    if nxt != b'served':
+        vs.append('%s: the next client did not find/start a server and compile: %r' % (what, nxt))
+    return vs
+
+
 # ---------------------------------------------------------------- vanish leg
 
 VANISH_FRAME = frame(compile_req(b'/d/bin/gcc', b'/d/wv', [b'-c', b'unit.c', b'-o', b'unit.o'],
@@ -790,6 +812,11 @@ def legs(tier):
             rule='1-3 connections, each a random mix of valid requests, oversized headers, undecodable frames, '
                  'truncated frames, cut into random chunks and interleaved; a bystander client compiles with real gcc '
                  'meanwhile; non-trivial = a connection was closed by the server or several connections were open'),
+        Leg('takeover', lambda rng, tier: [[b'start_server'], [b'client']] * (3 if tier == 'thorough' else 1),
+            monitor=monitor_takeover, impl_env=env, shards=2, stats=lambda c, o: ['how=' + c[0].decode()],
+            rule='SCCACHE_SERVER_UDS; server A holds a compile in flight, --stop-server, a new server takes the socket '
+                 'path over inside the drain window (by --start-server / by an ordinary client), A finishes and exits; '
+                 'monitor: in-flight compile delivered, socket still reachable, next client served'),
         Leg('bigout', gen_bigout, monitor=monitor_bigout, impl_env=env, shards=4,
             stats=lambda c, o: ['fits=%d' % (ENVELOPE + c[1] + len(c[3]) + 2 <= c[0]), 'status=%d' % c[2]],
             nontrivial=lambda c, o: ENVELOPE + c[1] + len(c[3]) + 2 > c[0],
